@@ -819,7 +819,7 @@ func (r *RockDB) backupLoop() {
 				defer close(rsp.done)
 				dbLog.Infof("begin backup to:%v \n", rsp.backupDir)
 				start := time.Now()
-				verifPoint("backup.beforeCheckpoint")
+				r.verifPoint("backup.beforeCheckpoint")
 				ck, err := r.rockEng.NewCheckpoint(false)
 				if err != nil {
 					dbLog.Infof("init checkpoint failed: %v", err)
@@ -834,7 +834,7 @@ func (r *RockDB) backupLoop() {
 					os.RemoveAll(rsp.backupDir)
 				}
 				rsp.rsp = []byte(rsp.backupDir)
-				verifPoint("backup.beforeSave")
+				r.verifPoint("backup.beforeSave")
 				err = ck.Save(rsp.backupDir, rsp.started)
 				r.checkpointDirLock.Unlock()
 				if err != nil {
@@ -845,7 +845,7 @@ func (r *RockDB) backupLoop() {
 				cost := time.Now().Sub(start)
 				dbLog.Infof("backup done (cost %v), check point to: %v\n", cost.String(), rsp.backupDir)
 			}()
-			verifPoint("backup.beforePurge")
+			r.verifPoint("backup.beforePurge")
 			// purge some old checkpoint
 			r.checkpointDirLock.Lock()
 			keepNum := MaxCheckpointNum
@@ -1041,7 +1041,7 @@ func (r *RockDB) restoreFromPath(backupDir string, term uint64, index uint64) er
 	// 2. get the list of sst in checkpoint
 	// 3. remove all the sst files not in the checkpoint list
 	// 4. copy all files from checkpoint to current db and do not override sst
-	verifPoint("restore.afterCloseEng")
+	r.verifPoint("restore.afterCloseEng")
 	matchName := path.Join(r.GetDataDir(), "*")
 	nameList, err := filepath.Glob(matchName)
 	if err != nil {
@@ -1080,7 +1080,7 @@ func (r *RockDB) restoreFromPath(backupDir string, term uint64, index uint64) er
 		dbLog.Infof("removing: %v", fn)
 		os.RemoveAll(fn)
 	}
-	verifPoint("restore.afterRemove")
+	r.verifPoint("restore.afterRemove")
 	for _, fn := range ckNameList {
 		if strings.HasPrefix(path.Base(fn), "LOG") {
 			dbLog.Infof("ignore copy LOG file: %v", fn)
@@ -1101,7 +1101,7 @@ func (r *RockDB) restoreFromPath(backupDir string, term uint64, index uint64) er
 		}
 	}
 
-	verifPoint("restore.beforeReopen")
+	r.verifPoint("restore.beforeReopen")
 	err = r.reOpenEng()
 	dbLog.Infof("restore done, cost: %v\n", time.Now().Sub(start))
 	if err != nil {
